@@ -17,13 +17,13 @@ its output is an obtainable redactable and the printer's override is untouched. 
 theorem doPrintf_out (env : Env) (he : EnvOk env) (n : Nat) (p : PP) (hp : Pre p) (f : List Byte) (args : List Val)
     (ha : ListOk args) (q : PP) (h : doPrintf env n p f args = .ok q) :
     Obtainable q.buf.redactableBytes ∧ q.override = p.override := by
-  have ⟨i, _, o⟩ := (spec_all env he n).doPrintf p f args hp ha q h
+  have ⟨i, _, o⟩ := ((spec_all env he n).doPrintf p f args hp ha).1 q h
   exact ⟨obtainable_finalize _ i, o⟩
 
 theorem doPrint_out (env : Env) (he : EnvOk env) (n : Nat) (p : PP) (hp : Pre p) (args : List Val)
     (ha : ListOk args) (q : PP) (h : doPrint env n p args = .ok q) :
     Obtainable q.buf.redactableBytes ∧ q.override = p.override := by
-  have ⟨i, _, o⟩ := (spec_all env he n).doPrint p args hp ha q h
+  have ⟨i, _, o⟩ := ((spec_all env he n).doPrint p args hp ha).1 q h
   exact ⟨obtainable_finalize _ i, o⟩
 
 end Redact
